@@ -405,6 +405,8 @@ func runHistory10(g *cv.Gen, t *Tables, res *hx.Result, st *stores, out string, 
 		}
 	}
 	res.CaseIndex = append(res.CaseIndex, fmt.Sprintf("%s/n%d/%s", class, c.N, c.Kind))
+	res.Sample(map[string]interface{}{"class": class, "participants": c.N, "app": c.Kind, "peers": len(c.Peers), "parent": c.Parent != nil,
+		"history": append([]string(nil), h.opLog...), "removed": c.Removed})
 	cid := c.ID()
 	atoms := [][]byte{cid[:]}
 	for _, p := range c.Peers {
